@@ -134,7 +134,7 @@ Qed.
 
 Lemma asset_weight_le b recon :
   cfg_valid (cb_cfg b) -> Forall entry_le recon ->
-  0 <= asset_weight RInitial b recon <= asset_weight RMaint b recon.
+  0 <= asset_weight CRInitial b recon <= asset_weight CRMaint b recon.
 Proof.
   intros Hc Hr. apply bc_validate_sound in Hc as (A & B & _).
   unfold asset_weight. destruct (find_with_tag recon (es_tag (cb_emode b))) as [e|] eqn:F.
@@ -154,7 +154,7 @@ Qed.
 
 Lemma asset_value_le recon p vi vm :
   pos_ok p -> Forall entry_le recon ->
-  weighted_asset_value RInitial recon p = Ok vi -> weighted_asset_value RMaint recon p = Ok vm ->
+  weighted_asset_value CRInitial recon p = Ok vi -> weighted_asset_value CRMaint recon p = Ok vm ->
   vi <= vm.
 Proof.
   intros (Ha & Hp & Hs & Hc & Hd) Hr. pose proof (asset_weight_le _ _ Hc Hr) as Hw.
@@ -166,7 +166,7 @@ Proof.
     eapply calc_value_w_nonneg; [exact Ha | exact Hp | exact Hs | | exact H2]. lia.
   - intros H1 H2. cbn [bind] in H2.
     apply bind_ok in H1 as (w' & Hw' & H1).
-    assert (Hle : w' <= asset_weight RMaint (p_bank p) recon).
+    assert (Hle : w' <= asset_weight CRMaint (p_bank p) recon).
     { destruct (p_discount p) as [d|].
       - apply ok_or_cmul_le in Hw'; [lia | lia | exact Hd].
       - apply Ok_inj in Hw'. lia. }
@@ -174,7 +174,7 @@ Proof.
 Qed.
 
 Lemma liab_value_le p vi vm :
-  pos_ok p -> weighted_liab_value RInitial p = Ok vi -> weighted_liab_value RMaint p = Ok vm -> vm <= vi.
+  pos_ok p -> weighted_liab_value CRInitial p = Ok vi -> weighted_liab_value CRMaint p = Ok vm -> vm <= vi.
 Proof.
   intros (Ha & Hp & Hs & Hc & _). apply bc_validate_sound in Hc as (_ & _ & C & _).
   unfold weighted_liab_value. cbn [bank_liab_weight]. intros H1 H2.
@@ -184,8 +184,8 @@ Qed.
 (* ---------------------------------------------------------------- the sums *)
 Lemma health_components_le recon l : forall a0 l0 a0' l0' ai li am lm,
   Forall pos_ok l -> Forall entry_le recon -> a0 <= a0' -> l0' <= l0 ->
-  health_components RInitial recon l (a0, l0) = Ok (ai, li) ->
-  health_components RMaint recon l (a0', l0') = Ok (am, lm) ->
+  health_components CRInitial recon l (a0, l0) = Ok (ai, li) ->
+  health_components CRMaint recon l (a0', l0') = Ok (am, lm) ->
   ai <= am /\ lm <= li.
 Proof.
   induction l as [|p rest IH]; cbn [health_components]; intros a0 l0 a0' l0' ai li am lm Hl Hr Ha Hlb H1 H2.
@@ -211,8 +211,8 @@ Qed.
 
 Lemma buffer recon l ai li am lm :
   Forall pos_ok l -> Forall entry_le recon ->
-  health_components RInitial recon l (0, 0) = Ok (ai, li) ->
-  health_components RMaint recon l (0, 0) = Ok (am, lm) ->
+  health_components CRInitial recon l (0, 0) = Ok (ai, li) ->
+  health_components CRMaint recon l (0, 0) = Ok (am, lm) ->
   ai <= am /\ lm <= li /\ (li <= ai -> lm <= am).
 Proof.
   intros Hl Hr H1 H2.
@@ -222,8 +222,8 @@ Qed.
 
 Lemma buffer_without_emode l ai li am lm :
   Forall pos_ok l ->
-  account_health_no_emode RInitial l = Ok (ai, li) ->
-  account_health_no_emode RMaint l = Ok (am, lm) ->
+  account_health_no_emode CRInitial l = Ok (ai, li) ->
+  account_health_no_emode CRMaint l = Ok (am, lm) ->
   li <= ai -> lm <= am.
 Proof.
   unfold account_health_no_emode. intros Hl H1 H2 H.
@@ -236,8 +236,8 @@ Definition pos_emode_ok (p : position) : Prop :=
 
 Lemma buffer_with_emode l ai li am lm :
   Forall pos_ok l -> Forall pos_emode_ok l ->
-  account_health RInitial l = Ok (ai, li) ->
-  account_health RMaint l = Ok (am, lm) ->
+  account_health CRInitial l = Ok (ai, li) ->
+  account_health CRMaint l = Ok (am, lm) ->
   li <= ai -> lm <= am.
 Proof.
   unfold account_health. intros Hl He H1 H2 H.
